@@ -3,13 +3,16 @@ import numpy as np
 from harness.props._common import run_eval, replay_eval
 from harness import monitors
 
-PROPS_FILE = "P_C12mx"
+PROPS_FILES = ["P_C12mx", "P_C12"]
 RULE = ("contract monitors (tie (d)): every list of 2x2 operators returned by UCGInitialize._build_multiplexor while preparing vectors "
         "with zeros / basis states / random data for every target index t (n = 1..4/5) must be unitary and map the normalised child "
         "pair to e_bit (C12_branch0/1, C12_diag0/1), identity where the parent vanishes; every UCGate(mux, up_to_diagonal=True) that "
-        "is applied must satisfy diag(_get_diagonal()) * circuit = multiplexer (the ucgate_spec contract); direct evaluation "
+        "is applied must satisfy diag(_get_diagonal()) * circuit = multiplexer (the ucgate_spec contract: level k f d of C12_level_step "
+        "with d = conj(diagonal)); every _apply_diagonal call must return parent * conj(diagonal)[bit::2] (the next children of "
+        "C12_levels_target); direct evaluation "
         "(harness/props/c12_eval.py): column t and columns < t of the operator. distinct = distinct (vector, t, preserve); non-trivial = n >= 2")
-ASSUMPTIONS = ["the induction over tree levels with the carried diagonal, the preserve option and UCGE's multiplexer simplification are evaluated, not proved",
+ASSUMPTIONS = ["the preserve option (the separately applied gate does not commute with the carried diagonal in general) and UCGE's multiplexer "
+               "simplification are evaluated, not proved; the returned circuit is Qiskit's inverse() of the proved levels",
                "Qiskit's UCGate synthesis"]
 TRUSTED = ["harness/monitors.py"]
 
@@ -76,6 +79,17 @@ def monitor_run(ctx):
             return ucg
         return wrapped
 
+    def ad_factory(orig):
+        def wrapped(bit_target, parent, ucg):
+            out = orig(bit_target, parent, ucg)
+            ctx.monitor("apply_diagonal_contract")
+            d = np.conj(np.asarray(ucg._get_diagonal()))
+            want = np.asarray(parent) * (d[1::2] if bit_target == "1" else d[::2])
+            if np.shape(out) != np.shape(want) or np.abs(np.asarray(out) - want).max() > 0:
+                problems.append("_apply_diagonal does not return parent * conj(diagonal)[bit::2]")
+            return out
+        return staticmethod(wrapped)
+
     for n in range(1, nmax + 1):
         for fam, v in vectors(ctx.rng, n):
             ts = range(2 ** n) if n <= 3 else [int(t) for t in ctx.rng.choice(2 ** n, 4, replace=False)]
@@ -83,7 +97,8 @@ def monitor_run(ctx):
                 for preserve in (False, True):
                     problems.clear()
                     with monitors.patched(UCGInitialize, "_build_multiplexor", bm_factory), \
-                            monitors.patched(UCGInitialize, "_apply_ucg", ucg_factory):
+                            monitors.patched(UCGInitialize, "_apply_ucg", ucg_factory), \
+                            monitors.patched(UCGInitialize, "_apply_diagonal", ad_factory):
                         try:
                             g = UCGInitialize(v, opt_params={"target_state": t, "preserve_previous": preserve})
                             _ = g.definition
@@ -110,7 +125,7 @@ def replay(ctx, case):
 
 
 MANIFEST = dict(
-    text='Proof (MODULAR/PARTIAL): the 2x2 operators chosen by _build_multiplexor map the normalised child pair to e_bit for both target bits and for the vanishing-|0>-child case, and are unitary (C12_branch0/1, C12_diag0/1, C12_G0_unitary; any field with involution). Tie: every operator list built during a run is checked against these statements, and every UCGate against the contract diag(_get_diagonal())*circuit = multiplexer. Column t, preserve option and UCGE are evaluated.',
-    note='Modelled, not verified: Qiskit UCGate; induction over levels with the carried diagonal; preserve option; UCGE simplification.',
+    text='Proof (MODULAR/PARTIAL): the 2x2 operators chosen by _build_multiplexor map the normalised child pair to e_bit for both target bits and for the vanishing-|0>-child case, and are unitary (C12_branch0/1, C12_diag0/1, C12_G0_unitary; any field with involution); induction over the levels with the carried diagonal: if every level's operators disentangle their child pairs and the next children are diagonal * parent, the n levels map the vector to (last child)|t> for every n, t and vector (C12_level_step, C12_levels_target). Tie: every operator list built during a run is checked against these statements, every UCGate against the contract diag(_get_diagonal())*circuit = multiplexer, every _apply_diagonal result against diagonal * parent. Column t, preserve option and UCGE are evaluated.',
+    note="Modelled, not verified: Qiskit UCGate synthesis and inverse(); preserve option; UCGE simplification.",
     technique='Coq/mathcomp proof + runtime contract monitors + operator-column evaluation',
     design_ref='DESIGN.md section 4, C12')
